@@ -206,7 +206,7 @@ func run(c Case) hx.Verdict {
 		if rec := recover(); rec != nil {
 			pmu.Lock()
 			_ = g
-			panics = append(panics, fmt.Sprintf("%s: %v", strings.SplitN(what, " ", 2)[0], rec))
+			panics = append(panics, fmt.Sprintf("%s: %v [at %s]", strings.SplitN(what, " ", 2)[0], rec, hx.PanicStack()))
 			pmu.Unlock()
 		}
 	}
@@ -259,9 +259,17 @@ func run(c Case) hx.Verdict {
 					case "isdone":
 						target.IsDone()
 					case "err":
-						_ = target.Err()
+						// the caller looks at what it got (a log line): an error object built from a
+						// half-updated error list only shows when it is read
+						if e := target.Err(); e != nil {
+							_ = e.Error()
+						}
 					case "errors":
-						_ = target.Errors()
+						for _, e := range target.Errors() {
+							if e != nil {
+								_ = e.Error()
+							}
+						}
 					}
 				}()
 			}
